@@ -620,7 +620,7 @@ fn contains_jsonb(left: &[u8], right: &[u8]) -> Result<bool, Error> {
                         }
                         let l_val = &left[l_val_offset..l_val_offset + l_jentry.length as usize];
                         if r_jentry.type_code != CONTAINER_TAG {
-                            if !l_val.eq(r_val) {
+                            if !scalar_eq(r_jentry.type_code, l_val, r_val) {
                                 return Ok(false);
                             }
                         } else if !contains_jsonb(l_val, r_val)? {
@@ -659,8 +659,19 @@ fn contains_jsonb(left: &[u8], right: &[u8]) -> Result<bool, Error> {
             }
             Ok(true)
         }
-        _ => Ok(left.eq(right)),
+        _ => Ok(compare(left, right)? == Ordering::Equal),
     }
+}
+
+// Scalars of the same type are equal if their payloads are equal,
+// numbers are compared by value as their encodings may differ.
+fn scalar_eq(type_code: u32, left: &[u8], right: &[u8]) -> bool {
+    if type_code == NUMBER_TAG {
+        if let (Ok(l), Ok(r)) = (Number::decode(left), Number::decode(right)) {
+            return l == r;
+        }
+    }
+    left.eq(right)
 }
 
 fn get_jentry_by_name(
@@ -3152,7 +3163,7 @@ fn array_contains(arr: &[u8], arr_header: u32, val: &[u8], val_jentry: JEntry) -
         if jentry.type_code != val_jentry.type_code {
             continue;
         }
-        if val.eq(arr_val) {
+        if scalar_eq(val_jentry.type_code, arr_val, val) {
             return true;
         }
     }
